@@ -521,6 +521,18 @@ def make_configs(tier, rnd):
             continue
         rest = random_constraints(rnd, n, r)[:1] if rnd.random() < 0.5 else []
         cfgs.append(dict(tt=tt, r=r, basis=rnd.choice(bases[:3]), constraints=[bad] + rest if rnd.random() < 0.7 else rest + [bad]))
+    # several outputs over disjoint groups of inputs (a budget between "one tree per group" and "one tree over all inputs")
+    and2, xor2 = [0, 0, 0, 1], [0, 1, 1, 0]
+    t_and = [and2[(t >> 2) & 3] for t in range(16)]   # x0 & x1
+    t_xor = [xor2[t & 3] for t in range(16)]          # x2 ^ x3
+    for r in (1, 2, 3):
+        for b in ("enum:FULL", "enum:XAIG"):
+            cfgs.append(dict(tt=[t_and, t_xor], r=r, basis=b))
+    cfgs.append(dict(tt=[t_xor, t_and], r=2, basis="enum:AIG"))
+    # more than ten outputs (output indices with two digits)
+    rows12 = [[0, 0, 0, 1]] * 5 + [[0, 1, 1, 0]] + [[0, 0, 0, 1]] * 4 + [[0, 1, 1, 0], [0, 0, 0, 1]]
+    cfgs.append(dict(tt=[list(r_) for r_ in rows12], r=2, basis="enum:XAIG"))
+    cfgs.append(dict(tt=[[0, 1, 1, 1] if i % 3 == 0 else [0, 1, 1, 0] if i % 3 == 1 else [0, 0, 0, 1] for i in range(11)], r=3, basis="enum:FULL"))
     # a few through the time-limited (forked) solver path
     for c in rnd.sample(cfgs, 12 if thorough else 4):
         cfgs.append(dict(c, time_limit=30))
